@@ -80,3 +80,28 @@ package core
 //@   ensures [failed] result != nil ==> (kvval == old(kvval) && kvhas == old(kvhas)) || (gcStored() == safePoint && gcParsable())
 //@   ensures [only-gckey] forall k :: k != gcKey() ==> kvval[k] == old(kvval[k]) && kvhas[k] == old(kvhas[k])
 //@   modifies ghost kvhas, ghost kvval
+
+// ---- C15: service safe points ----
+// gc_worker's own entry can neither be removed nor saved with a finite lifetime; an empty service id is refused.
+//@ func (*Storage).SaveServiceGCSafePoint
+//@   props C15
+//@   requires ssp != nil
+//@   ensures [gcworker-infinite] result == nil ==> !(ssp.ServiceID == "gc_worker" && ssp.ExpiredAt != MaxInt64)
+//@   ensures [nonempty] result == nil ==> ssp.ServiceID != ""
+//@   ensures [refused-unchanged] (ssp.ServiceID == "" || (ssp.ServiceID == "gc_worker" && ssp.ExpiredAt != MaxInt64)) ==> result != nil && kvval == old(kvval) && kvhas == old(kvhas)
+//@   ensures [one-key] forall k :: k != gocall("path.Join#0/4", "gc", "safe_point", "service", ssp.ServiceID) ==> kvval[k] == old(kvval[k]) && kvhas[k] == old(kvhas[k])
+//@   ensures [saved] result == nil ==> kvhas[gocall("path.Join#0/4", "gc", "safe_point", "service", ssp.ServiceID)]
+//@   modifies ghost kvhas, ghost kvval
+
+//@ func (*Storage).RemoveServiceGCSafePoint
+//@   props C15
+//@   ensures [gcworker-kept] serviceID == "gc_worker" ==> result != nil && kvval == old(kvval) && kvhas == old(kvhas)
+//@   ensures [removed] result == nil ==> !kvhas[gocall("path.Join#0/4", "gc", "safe_point", "service", serviceID)]
+//@   ensures [one-key] forall k :: k != gocall("path.Join#0/4", "gc", "safe_point", "service", serviceID) ==> kvval[k] == old(kvval[k]) && kvhas[k] == old(kvhas[k])
+//@   modifies ghost kvhas, ghost kvval
+
+//@ func (*Storage).initServiceGCSafePointForGCWorker
+//@   props C15
+//@   ensures [infinite] r1 == nil ==> r0 != nil && r0.ServiceID == "gc_worker" && r0.ExpiredAt == MaxInt64 && r0.SafePoint == initialValue
+//@   ensures [saved] r1 == nil ==> kvhas[gocall("path.Join#0/4", "gc", "safe_point", "service", "gc_worker")]
+//@   modifies ghost kvhas, ghost kvval
